@@ -54,8 +54,10 @@ def run(ctx):
     prog = ctx.prog
 
     # =========================================================== table A: manager.active_operations
-    sd = prog.async_body(MGR + '::send_dht_request')
-    hr = prog.async_body(MGR + '::handle_dht_response')
+    # bodies are analysed with their same-file helpers spliced in (inline.py), so that extracting the registration,
+    # the removal or the reply delivery into a private helper changes nothing for the path rules below
+    sd = prog.inl(MGR + '::send_dht_request', keep=r'::sweep_expired_operations$')
+    hr = prog.inl(MGR + '::handle_dht_response')
     for b in (sd, hr):
         ctx.touch(b, len(b.calls()))
     ins = table_calls(sd, 'active_operations', r'HashMap::<.*>::insert$')
@@ -98,7 +100,7 @@ def run(ctx):
         ctx.ob('AT-MOST-ONCE', 'A:send#%d:one-guard' % i, okat, c.where(), 'lookup, authorisation and completion happen under one active_operations guard with no await: %s' % okat)
     _no_unauth_effect(ctx, hr, 'A', 'active_operations', ('peer_id', 'contacted_nodes'), ('sender',), MGR + '::handle_dht_response')
     # sender provenance up the chain: handle_dht_message passes its `sender` parameter
-    hm = prog.async_body(MGR + '::handle_dht_message')
+    hm = prog.inl(MGR + '::handle_dht_message', keep=r'::handle_dht_response$')
     okp = False
     for cc in hm.calls():
         if cc.callee == MGR + '::handle_dht_response':
@@ -108,7 +110,7 @@ def run(ctx):
     ctx.ob('AT-MOST-ONCE', 'A:type', 'oneshot::Sender' in fty, 'src/dht_network_manager.rs', 'DhtOperationContext.response_tx : %s' % fty)
 
     # =========================================================== table B: transport.active_requests
-    sr = prog.async_body(TH + '::send_request')
+    sr = prog.inl(TH + '::send_request')
     ctx.touch(sr, len(sr.calls()))
     ins = table_calls(sr, 'active_requests', r'HashMap::<.*>::insert$')
     rem = table_calls(sr, 'active_requests', r'HashMap::<.*>::remove$')
@@ -140,9 +142,10 @@ def run(ctx):
         ctx.ob('CAP', 'B:cap-atomic', okcap, c.where(), 'len() < MAX_ACTIVE_REQUESTS (256) test and insert inside one write guard: %s' % okcap)
     # completion in the receive loop
     recv = None
-    for b in prog.bodies.containing('RequestResponseEnvelope', 'active_requests'):
-        if b.root == TH + '::start_message_receiving_system' and b.calls(SEND):
-            recv = b
+    for bid in prog.family(TH + '::start_message_receiving_system'):
+        ib = prog.inl(bid)
+        if ib.calls(SEND) and ib.is_coroutine:
+            recv = ib
     if recv is None:
         ctx.ob('COMPLETION-GATE', 'B:send', False, '-', 'receive loop completing /rr/ requests not found (anchor)')
     else:
@@ -173,8 +176,8 @@ def run(ctx):
     ctx.ob('AT-MOST-ONCE', 'B:type', 'oneshot::Sender' in fty, 'src/network.rs', 'PendingRequest.response_tx : %s' % fty)
 
     # =========================================================== table C: core engine pending_requests
-    qn = prog.async_body(ENG + '::query_node_for_key')
-    hp = prog.async_body(ENG + '::handle_response')
+    qn = prog.inl(ENG + '::query_node_for_key')
+    hp = prog.inl(ENG + '::handle_response')
     for b in (qn, hp):
         ctx.touch(b, len(b.calls()))
     ins = table_calls(qn, 'pending_requests', r'LruCache::<.*>::(put|push)$')
